@@ -1,6 +1,8 @@
 package obl
 
 import (
+	"fmt"
+	"os"
 	"go/types"
 	"sort"
 	"strings"
@@ -352,6 +354,23 @@ func (an *Analyzer) joinStates(a, b *State, at string) *State {
 		return a.clone()
 	}
 	n := newState()
+	// merge terms are named after their merge point, so the same term is re-used on every visit: facts the incoming
+	// states hold about such a term (or anything derived from it) describe its previous value and must not survive
+	an.redef = map[*Term]bool{}
+	staleMemo := map[*Term]bool{}
+	var stale func(t *Term) bool
+	stale = func(t *Term) bool {
+		if t == nil {
+			return false
+		}
+		if v, ok := staleMemo[t]; ok {
+			return v
+		}
+		staleMemo[t] = false
+		v := an.redef[t] || stale(t.a) || stale(t.b)
+		staleMemo[t] = v
+		return v
+	}
 	for k, v := range a.vals {
 		if w, ok := b.vals[k]; ok {
 			if w == v {
@@ -425,11 +444,24 @@ func (an *Analyzer) joinStates(a, b *State, at string) *State {
 		if ca.int {
 			n.mem[addr] = cell{int: true, lin: an.mergeInt(n, a, b, ca.lin, cb.lin, at+"|m|"+addr.key, addr.typ)}
 		} else {
+			if trace && os.Getenv("VERIF_OBL_TRACE") == "memmerge" {
+				fmt.Fprintf(os.Stderr, "   memmerge at %s addr %s: %s (bound=%v) vs %s (bound=%v)\n", at, addr, ca.t, oka, cb.t, okb)
+			}
 			n.mem[addr] = cell{t: an.mergeRef(n, a, b, ca.t, cb.t, at+"|m|"+addr.key)}
+		}
+	}
+	// the redefinitions are complete: forget the memo and drop memory cells at addresses derived from a redefined term
+	staleMemo = map[*Term]bool{}
+	for addr := range n.mem {
+		if stale(addr) {
+			delete(n.mem, addr)
 		}
 	}
 	// facts on common terms
 	for t, va := range a.iv {
+		if stale(t) {
+			continue
+		}
 		vb := b.getIv(t)
 		h := itv{min64(va.lo, vb.lo), max64(va.hi, vb.hi)}
 		if old, ok := n.iv[t]; ok {
@@ -438,14 +470,26 @@ func (an *Analyzer) joinStates(a, b *State, at string) *State {
 		n.iv[t] = h
 	}
 	for x, m := range a.ub {
+		if stale(x) {
+			continue
+		}
 		for y, c := range m {
+			if stale(y) {
+				continue
+			}
 			if c2, ok := b.boundDiff(x, y); ok {
 				n.addUB(x, y, max64(c, c2))
 			}
 		}
 	}
 	for x, m := range b.ub {
+		if stale(x) {
+			continue
+		}
 		for y, c := range m {
+			if stale(y) {
+				continue
+			}
 			if _, done := n.ub[x][y]; done {
 				continue
 			}
@@ -455,38 +499,42 @@ func (an *Analyzer) joinStates(a, b *State, at string) *State {
 		}
 	}
 	for t := range a.nn {
-		if b.nn[t] {
+		if b.nn[t] && !stale(t) {
 			n.nn[t] = true
 		}
 	}
 	for t := range a.isnil {
-		if b.isnil[t] {
+		if b.isnil[t] && !stale(t) {
 			n.isnil[t] = true
 		}
 	}
 	for t, ty := range a.dyn {
-		if tb, ok := b.dyn[t]; ok && types.Identical(ty, tb) {
+		if tb, ok := b.dyn[t]; ok && types.Identical(ty, tb) && !stale(t) {
 			n.dyn[t] = ty
 		}
 	}
 	for t, v := range a.tbl {
-		if w, ok := b.tbl[t]; ok && w == v {
+		if w, ok := b.tbl[t]; ok && w == v && !stale(t) {
 			n.tbl[t] = v
 		}
 	}
 	for t, v := range a.part {
-		if w, ok := b.part[t]; ok && w == v {
+		if w, ok := b.part[t]; ok && w == v && !stale(t) {
 			n.part[t] = v
 		}
 	}
 	// guards: keep those present in both (same object)
 	for _, g := range a.guards {
+		if stale(g.on) {
+			continue
+		}
 		for _, h := range b.guards {
 			if g.on == h.on && g.whenNil == h.whenNil && g.whenNonNil == h.whenNonNil {
 				n.guards = append(n.guards, g)
 			}
 		}
 	}
+	an.redef = nil
 	return n
 }
 
@@ -506,6 +554,9 @@ func (s *State) boundDiff(x, y *Term) (int64, bool) {
 // mergeInt creates (or reuses) the merge term for two differing linear forms and gives it the hull of their facts.
 func (an *Analyzer) mergeInt(n, a, b *State, x, y Lin, key string, typ types.Type) Lin {
 	m := an.tt.mk("mphi", key, nil, nil, typ, "")
+	if an.redef != nil {
+		an.redef[m] = true
+	}
 	lo, hi := min64(a.lo(x), b.lo(y)), max64(a.hi(x), b.hi(y))
 	n.iv[m] = itv{lo, hi}
 	// difference bounds against the terms either side relates to
@@ -585,6 +636,9 @@ func (an *Analyzer) mergeRef(n, a, b *State, x, y *Term, key string) *Term {
 		typ = x.typ
 	}
 	m := an.tt.mk("mphi", key, nil, nil, typ, "")
+	if an.redef != nil {
+		an.redef[m] = true
+	}
 	if (a.nn[x] || x == m && a.nn[m]) && (b.nn[y] || y == m && b.nn[m]) {
 		n.nn[m] = true
 	}
@@ -596,38 +650,49 @@ func (an *Analyzer) mergeRef(n, a, b *State, x, y *Term, key string) *Term {
 	if oka && okb && types.Identical(da, db) {
 		n.dyn[m] = da
 	}
-	// length facts
-	lx, ly := an.lenTerm(x), an.lenTerm(y)
-	lm := an.lenTerm(m)
-	ia, ib := a.getIv(lx), b.getIv(ly)
-	n.iv[lm] = itv{min64(ia.lo, ib.lo), max64(ia.hi, ib.hi)}
-	cands := map[*Term]bool{}
-	for t := range a.ub[lx] {
-		cands[t] = true
-	}
-	for t := range b.ub[ly] {
-		cands[t] = true
-	}
-	for z := range a.rub[lx] {
-		cands[z] = true
-	}
-	for z := range b.rub[ly] {
-		cands[z] = true
-	}
-	for t := range cands {
-		if t == lm {
-			continue
+	// length and capacity facts
+	for _, mk := range []func(*Term) *Term{an.lenTerm, an.capTerm} {
+		lx, ly := mk(x), mk(y)
+		lm := mk(m)
+		ia, ib := a.getIv(lx), b.getIv(ly)
+		if _, ok := a.iv[lx]; !ok && lx.kind == "cap" {
+			ia = itv{a.lo(Lin{an.lenTerm(x), 0}), inf}
 		}
-		ca, oka := a.linDiff(Lin{lx, 0}, Lin{t, 0})
-		cb, okb := b.linDiff(Lin{ly, 0}, Lin{t, 0})
-		if oka && okb {
-			n.addUB(lm, t, max64(ca, cb))
+		if _, ok := b.iv[ly]; !ok && ly.kind == "cap" {
+			ib = itv{b.lo(Lin{an.lenTerm(y), 0}), inf}
 		}
-		ca, oka = a.linDiff(Lin{t, 0}, Lin{lx, 0})
-		cb, okb = b.linDiff(Lin{t, 0}, Lin{ly, 0})
-		if oka && okb {
-			n.addUB(t, lm, max64(ca, cb))
+		n.iv[lm] = itv{min64(ia.lo, ib.lo), max64(ia.hi, ib.hi)}
+		cands := map[*Term]bool{}
+		for t := range a.ub[lx] {
+			cands[t] = true
 		}
+		for t := range b.ub[ly] {
+			cands[t] = true
+		}
+		for z := range a.rub[lx] {
+			cands[z] = true
+		}
+		for z := range b.rub[ly] {
+			cands[z] = true
+		}
+		for t := range cands {
+			if t == lm || (an.redef != nil && (an.redef[t] || (t.a != nil && an.redef[t.a]))) {
+				continue
+			}
+			ca, oka := a.linDiff(Lin{lx, 0}, Lin{t, 0})
+			cb, okb := b.linDiff(Lin{ly, 0}, Lin{t, 0})
+			if oka && okb {
+				n.addUB(lm, t, max64(ca, cb))
+			}
+			ca, oka = a.linDiff(Lin{t, 0}, Lin{lx, 0})
+			cb, okb = b.linDiff(Lin{t, 0}, Lin{ly, 0})
+			if oka && okb {
+				n.addUB(t, lm, max64(ca, cb))
+			}
+		}
+	}
+	if _, isSlice := typUnder(typ).(*types.Slice); isSlice {
+		n.addUB(an.lenTerm(m), an.capTerm(m), 0)
 	}
 	return m
 }
@@ -906,4 +971,11 @@ func (s *State) reattach(rest *State) {
 			s.dyn[t] = ty
 		}
 	}
+}
+
+func typUnder(t types.Type) types.Type {
+	if t == nil {
+		return nil
+	}
+	return t.Underlying()
 }
